@@ -26,6 +26,7 @@ terminating is recorded (exception name CallTimeout) instead of hanging the chec
 import contextlib
 import io
 import itertools
+import os
 import signal
 import sys
 
@@ -1064,6 +1065,9 @@ def main(argv):
     tier = tier_from_args(argv)
     V = Verdict(PROP, tier)
     import_trimesh()
+    # 16 TLC shards run side by side; a shard needs < 1 GB (measured 0.5 - 0.7 GB resident) but the JVM
+    # would by default let each heap grow to a quarter of the machine's memory
+    os.environ.setdefault("JAVA_TOOL_OPTIONS", "-Xmx2g")
     brle, rle, dense = runlength_work(tier)
     enc_work = encoding_work(tier)
     g_work = grid_work(tier)
